@@ -179,6 +179,15 @@ pub mod rowan {
 
     pub type SyntaxElement = NodeOrToken<SyntaxNode, SyntaxToken>;
 
+    impl NodeOrToken<SyntaxNode, SyntaxToken> {
+        /// restated from rowan/src/api.rs (`SyntaxElement::kind`)
+        pub fn kind(&self) -> (r: super::SyntaxKind)
+            ensures r == tree_kind(elem_tree(*self))
+        {
+            match self { NodeOrToken::Node(n) => n.kind(), NodeOrToken::Token(t) => t.kind() }
+        }
+    }
+
     pub open spec fn elem_tree(e: SyntaxElement) -> Tree {
         match e { NodeOrToken::Node(n) => n.tree(), NodeOrToken::Token(t) => t.tree() }
     }
@@ -213,9 +222,21 @@ pub mod rowan {
         ensures n.tree() is Node
     { }
 
+    /// the children of an in-memory node are counted by a usize (the same assumption as in children_with_tokens)
+    #[verifier::external_body]
+    pub proof fn axiom_children_count(n: SyntaxNode)
+        ensures tree_children(n.tree()).len() < usize::MAX
+    { }
+
     impl SyntaxNode {
         /// the green subtree this handle points at (at the time of the call)
         pub uninterp spec fn tree(&self) -> Tree;
+
+        /// another handle to the same node
+        #[verifier::external_body]
+        pub fn clone(&self) -> (r: Self)
+            ensures r == *self
+        { unimplemented!() }
 
         #[verifier::external_body]
         pub fn new_root(g: GreenNode) -> (r: Self)
@@ -275,6 +296,8 @@ pub mod rowan {
         pub fn children_with_tokens(&self) -> (r: VxIter<SyntaxElement>)
             ensures
                 r@.len() == tree_children(self.tree()).len(),
+                // the children of an in-memory node are counted by a usize (rowan stores the count as u32)
+                r@.len() < usize::MAX,
                 forall|i: int| 0 <= i < r@.len() ==> elem_tree(#[trigger] r@[i]) == tree_children(self.tree())[i]
                     && (r@[i] is Node <==> tree_children(self.tree())[i] is Node),
                 forall|i: int| 0 <= i < r@.len() ==> #[trigger] tree_children(self.tree())[i] == elem_tree(r@[i]),
@@ -297,3 +320,22 @@ pub fn vx_node_into(n: rowan::SyntaxNode) -> (r: rowan::SyntaxElement)
 pub fn vx_kind_into(k: SyntaxKind) -> (r: rowan::SyntaxKind)
     ensures r.of() == k
 { unimplemented!() }
+
+/// R-method-map (type-directed): `x.into()` => `VxInto::vx_into(x)` for the two conversions rowan code uses:
+/// SyntaxKind -> rowan::SyntaxKind and SyntaxNode -> SyntaxElement
+pub trait VxInto<T>: Sized {
+    spec fn into_ok(self, r: T) -> bool;
+    fn vx_into(self) -> (r: T)
+        ensures self.into_ok(r);
+}
+impl VxInto<rowan::SyntaxKind> for SyntaxKind {
+    open spec fn into_ok(self, r: rowan::SyntaxKind) -> bool { r.of() == self }
+    fn vx_into(self) -> (r: rowan::SyntaxKind) { vx_kind_into(self) }
+}
+impl VxInto<rowan::SyntaxElement> for rowan::SyntaxNode {
+    open spec fn into_ok(self, r: rowan::SyntaxElement) -> bool { r == rowan::NodeOrToken::<rowan::SyntaxNode, rowan::SyntaxToken>::Node(self) }
+    fn vx_into(self) -> (r: rowan::SyntaxElement) { vx_node_into(self) }
+}
+pub fn vx_into<S: VxInto<T>, T>(s: S) -> (r: T)
+    ensures s.into_ok(r)
+{ s.vx_into() }
